@@ -874,7 +874,7 @@ theorem document_calls_only_named (d : Doc.Document) (u : String)
     all_goals (intro hx; simp_all)
   have e4 : Ev.call u ∈ (Doc.run d).paintLog →
       Ev.call u ∈ (Doc.paintSvgs d.fetcher d.opts d.svgInfo (Doc.runRefs d.fetcher d.opts [] d.images).2.2.1
-        (d.images.filterMap (Doc.svgOfRef d.opts (Doc.runRefs d.fetcher d.opts [] d.images).2.2.1))).2 := by
+        ((Doc.paintOrder d.images).filterMap (Doc.svgOfRef d.opts (Doc.runRefs d.fetcher d.opts [] d.images).2.2.1))).2 := by
     simp only [Doc.run]
     repeat' split
     all_goals (intro hx; simp_all)
